@@ -237,7 +237,7 @@ pub fn seeded_runs(ctx: &mut Ctx, prop: &str, oracles: u32, clauses: u32, quick_
         if !quick_only {
             // value offsets that need four bytes on disk (value file beyond 16 MiB): the chain head's record is rewritten
             let specs16m = vec![SeedSpec { file: "val", boundary: 16 * 1024 * 1024, eps: 16, free_slots: 2, val_pad: 0 }];
-            seeded_group(ctx, prop, oracles, clauses, 2, vec![3, 200], &specs16m, 4_000, 8.0);
+            seeded_group(ctx, prop, oracles, clauses, 2, vec![3, 200], &specs16m, 120, 5.0);
         }
         if !quick_only {
             let specs3 = vec![SeedSpec { file: "val", boundary: 16 * 1024, eps: 16, free_slots: 0 , val_pad: 0}, SeedSpec { file: "key", boundary: 16 * 1024, eps: 16, free_slots: 0 , val_pad: 0}];
@@ -357,6 +357,10 @@ pub fn c08(tier: &str, seed: u64) -> i32 {
     }
     if ctx.run.violations.is_empty() {
         crate::props_a::non_utf8_closure(&mut ctx, "C08", o, clauses);
+    }
+    if ctx.run.violations.is_empty() {
+        // "a value of any other length": overwrites between the largest length of a slot class, one byte more and the next class
+        crate::props_a::class_ladder(&mut ctx, "C08", o, clauses, false, if thorough { 1 } else { 2 });
     }
     if ctx.run.violations.is_empty() {
         seeded_runs(&mut ctx, "C08", o, clauses, false);
